@@ -1039,6 +1039,8 @@ class AstEval:
             return is_and
         if isinstance(arg, ast.UnaryOp) and isinstance(arg.op, ast.Not):
             return not await self.aeval_test(arg.operand)
+        if isinstance(arg, ast.IfExp):
+            return await self.aeval_test(arg.body if await self.aeval_test(arg.test) else arg.orelse)
         if isinstance(arg, ast.Compare) and len(arg.ops) > 1:
             # a chain that stopped at a false comparison has tested that result already
             val, known_false = await self.compare_chain(arg)
